@@ -247,13 +247,21 @@ def run(pid: str, tier: str, seed: int, selftest=False, replay=None) -> int:
         stat = [DYNI if dyn[d] else shape[d] * rng.randrange(mults[d]) for d in range(2)]
         dargs = [f"%o{d}" for d in range(2) if dyn[d]]
         subt = f"memref<{ss}xi8, strided<[{gshape[1]}, 1], offset: ?>>"
+        # a second tile of the same global (the global then has two users: it cannot be re-laid-out for one of them only)
+        second = ""
+        if k % 3 == 0 and max(mults) > 1:
+            stat2 = [shape[d] * rng.randrange(mults[d]) for d in range(2)]
+            second = f"""
+    %sv2 = "memref.subview"(%g) <{{operandSegmentSizes = array<i32: 1, 0, 0, 0>, static_offsets = array<i64: {stat2[0]}, {stat2[1]}>, static_sizes = array<i64: {shape[0]}, {shape[1]}>, static_strides = array<i64: 1, 1>}}> : (memref<{gs}xi8>) -> {subt}
+    %k2 = "snax.layout_cast"(%sv2) : ({subt}) -> memref<{ss}xi8, #tsl.tsl<{lay}>>
+    "test.op"(%k2) : (memref<{ss}xi8, #tsl.tsl<{lay}>>) -> ()"""
         text = f"""builtin.module {{
   "memref.global"() <{{sym_name = "g", type = memref<{gs}xi8>, initial_value = dense<[{rows}]> : tensor<{gs}xi8>, sym_visibility = "private", constant}}> : () -> ()
   func.func public @f({', '.join(a + ' : index' for a in dargs)}) {{
     %g = memref.get_global @g : memref<{gs}xi8>
     %sv = "memref.subview"(%g{''.join(', ' + a for a in dargs)}) <{{operandSegmentSizes = array<i32: 1, {len(dargs)}, 0, 0>, static_offsets = array<i64: {stat[0]}, {stat[1]}>, static_sizes = array<i64: {shape[0]}, {shape[1]}>, static_strides = array<i64: 1, 1>}}> : (memref<{gs}xi8>{', index' * len(dargs)}) -> {subt}
     %k = "snax.layout_cast"(%sv) : ({subt}) -> memref<{ss}xi8, #tsl.tsl<{lay}>>
-    "test.op"(%k) : (memref<{ss}xi8, #tsl.tsl<{lay}>>) -> ()
+    "test.op"(%k) : (memref<{ss}xi8, #tsl.tsl<{lay}>>) -> (){second}
     func.return
   }}
 }}
@@ -270,24 +278,26 @@ def run(pid: str, tier: str, seed: int, selftest=False, replay=None) -> int:
             rep.violation(name, f"realize-memref-casts raised {type(e).__name__}: {str(e)[:160]}", {"source": text})
             continue
         newg = [o for o in m.walk() if isinstance(o, memref.GlobalOp)]
-        sv = [o for o in m.walk() if isinstance(o, memref.SubviewOp)]
-        if len(newg) != 1 or "tsl" not in str(newg[0].type) or len(sv) != 1:
+        svs = [o for o in m.walk() if isinstance(o, memref.SubviewOp)]
+        if len(newg) != 1 or "tsl" not in str(newg[0].type):
             rep.refused += 1      # not transformed at compile time: a copy is materialised instead (program part)
             continue
-        svl = sv[0].result.type.layout
-        if "tsl" not in str(svl):
-            rep.refused += 1
-            continue
-        if any(o.name == "memref.copy" for o in m.walk()):
-            rep.violation(name, "the global was re-laid-out and a copy is materialised as well", {"source": text, "after": str(m)[:3000]})
-            continue
-        offs = [[a, b] for a in ([shape[0] * i for i in range(mults[0])] if dyn[0] else [stat[0]])
-                for b in ([shape[1] * i for i in range(mults[1])] if dyn[1] else [stat[1]])]
-        rcases.append({"kind": "relayout", "name": name, "shape": gshape, "L": export_tsl(newg[0].type.layout.data), "old": list(range(nel)),
-                       "new": dense_ints(newg[0].initial_value), "text": text,
-                       "sub": {"L": export_tsl(svl.data), "sizes": list(shape), "offs": offs}})
-        if str(svl.data) != str(_P(repo.opt_main().ctx, f"#tsl.tsl<{lay}>").parse_attribute().data):
-            rep.violation(name, f"the subview's layout {svl.data} is not the requested layout {lay}", {"source": text, "after": str(m)[:3000]})
+        # every subview of the re-laid-out global must see, through the layout its own result type claims, the elements of its tile
+        from xdsl.dialects.builtin import StridedLayoutAttr
+        for q, sv in enumerate(svs):
+            svl = sv.result.type.layout
+            if isinstance(svl, StridedLayoutAttr):
+                subL = {"dims": [[{"b": b, "s": st.data}] for b, st in zip(shape, svl.strides.data)], "off": 0}
+            elif "tsl" in str(svl):
+                subL = export_tsl(svl.data)
+            else:
+                subL = {"dims": [[{"b": shape[0], "s": shape[1]}], [{"b": shape[1], "s": 1}]], "off": 0}
+            so = [x for x in sv.static_offsets.get_values()]
+            offs = [[a, b] for a in ([shape[0] * i for i in range(mults[0])] if so[0] == DYNI else [so[0]])
+                    for b in ([shape[1] * i for i in range(mults[1])] if so[1] == DYNI else [so[1]])]
+            rcases.append({"kind": "relayout", "name": name + f"#sv{q}", "shape": gshape, "L": export_tsl(newg[0].type.layout.data), "old": list(range(nel)),
+                           "new": dense_ints(newg[0].initial_value), "text": text, "after": str(m)[:3000],
+                           "sub": {"L": subL, "sizes": list(shape), "offs": offs}})
     # ---- transposed constants folded at compile time (RemoveTransposeConstants)
     from xdsl.pattern_rewriter import PatternRewriteWalker
     from snaxc.transforms.frontend.remove_transpose_constants import RemoveTransposeConstants
